@@ -38,6 +38,29 @@ THEOREMS = [
     "SynKit.Cluster.incremental_perm_invariant",
     "SynKit.Cluster.batched_eq_oneshot",
     "SynKit.Cluster.C13.full",
+    "SynKit.Cluster.same_class_iff_on",
+    "SynKit.Cluster.cluster_perm_invariant_on",
+    "SynKit.Cluster.libCheck_joins_representative_on",
+    "SynKit.Cluster.cluster_with_templates_spec_on",
+    "SynKit.Cluster.incremental_same_class_iff_oneshot",
+    "SynKit.Cluster.incremental_perm_invariant_on",
+    "SynKit.Cluster.clIso_equiv_wf",
+    "SynKit.Cluster.same_class_iff_iso",
+    "SynKit.Cluster.cluster_perm_invariant_iso",
+    "SynKit.Cluster.libCheck_spec_iso",
+    "SynKit.Cluster.libCheck_joins_representative_iso",
+    "SynKit.Cluster.cluster_with_templates_spec_iso",
+    "SynKit.Cluster.incremental_perm_invariant_iso",
+    "SynKit.Cluster.relabel_same_class_iso",
+    "SynKit.Cluster.libCheck_relabel_joins_iso",
+    "SynKit.Cluster.C13.full_iso",
+    "SynKit.Cluster.clIso_iff",
+    "SynKit.Cluster.clIso_equivOn",
+    "SynKit.Cluster.nodeOk_norm_iff",
+    "SynKit.Cluster.edgeOk_norm_iff",
+    "SynKit.Cluster.get_withDefault",
+    "SynKit.Cluster.clIso_relabel_left",
+    "SynKit.Cluster.clIso_relabel_right",
 ]
 
 SEL = {"node_keys": ["element", "charge"], "edge_keys": ["order"], "hcount": False}
